@@ -526,6 +526,20 @@ def _atom_sets(leaves):
     return sets
 
 
+WF_OTHER = "<any other workflow status>"
+
+
+def state_in_row(m, st, r):
+    """State st (of meaning m) can be the state in which an event is looked up in workflow
+    row r.  Only meanings whose contextualiser tests the workflow status distinguish rows."""
+    ws = st.get("wf_status")
+    if ws is None or r is None:
+        return True
+    if ws == WF_OTHER:
+        return r not in getattr(m, "wf_mentioned", frozenset())
+    return ws == r
+
+
 def _eval_atom(atom, state):
     k = atom[0]
     if k in ("task_exists", "item_exists"):
@@ -550,7 +564,14 @@ def build_meaning(facts, which, spec_sets, bool_atoms, extra_dims=None, constrai
                 if a[0] not in ("task_exists", "item_exists", "wf_status_eq") and a not in bools:
                     bools.append(a)
     m.bool_atoms = bools
-    wf_rows = (extra_dims or {}).get("wf_status", [None])
+    wf_rows = (extra_dims or {}).get("wf_status")
+    if wf_rows is None:
+        # a contextualiser that tests the workflow status makes the status a dimension of the
+        # state: the statuses it mentions, plus one representative for all the others
+        mentioned = sorted({a[1] for lv in leaves.values() for _, decisions in lv
+                            for a, _ in decisions if a[0] == "wf_status_eq"})
+        wf_rows = (mentioned + [WF_OTHER]) if mentioned else [None]
+        m.wf_mentioned = frozenset(mentioned)
     for s, lv in leaves.items():
         own = [c for c in classes if s in c]
         for r in range(len(classes) + 1):
@@ -735,12 +756,24 @@ def _clean_completion(facts, st):
             and not present_meets(st, PAUSE_EVIDENCE) and not present_meets(st, CANCEL_EVIDENCE))
 
 
-def name_summaries(facts):
-    if hasattr(facts, "_wf_task_summ"):
-        return facts._wf_task_summ
+def name_summaries(facts, row=None):
+    """Per generated task-event name, what is true of the states that generate it.  With a
+    row, only the states in which the workflow can be in that row (matters only when the
+    contextualiser itself tests the workflow status)."""
     m = wf_task_meaning(facts)
+    if not getattr(m, "wf_mentioned", None):
+        row = None
+    cache = facts.__dict__.setdefault("_wf_task_summ_rows", {})
+    if row in cache:
+        return cache[row]
+    if row is None and hasattr(facts, "_wf_task_summ"):
+        return facts._wf_task_summ
     out = {}
     for name, states in m.by_name.items():
+        if row is not None:
+            states = [s for s in states if state_in_row(m, s, row)]
+            if not states:
+                continue
         out[name] = {
             "some_inflight": any(_inflight(s) for s in states),
             "all_inflight": all(_inflight(s) for s in states),
@@ -754,7 +787,9 @@ def name_summaries(facts):
             "statuses": sorted({s["s"] for s in states}),
             "n": len(states),
         }
-    facts._wf_task_summ = out
+    cache[row] = out
+    if row is None:
+        facts._wf_task_summ = out
     return out
 
 
@@ -766,6 +801,7 @@ def rule_T3a(facts, rows=None):
     for r in facts.wf:
         if rows and r not in rows:
             continue
+        summ = name_summaries(facts, r)
         for name, sm in sorted(summ.items()):
             if name not in accepted or not sm["some_inflight"]:
                 continue
@@ -797,6 +833,7 @@ def rule_T3b(facts, rows=None):
             continue
         if r not in facts.wf:
             raise AnalysisError("workflow table has no row %s" % r)
+        summ = name_summaries(facts, r)
         for name, sm in sorted(summ.items()):
             if name not in accepted or not sm["some_dormant"]:
                 continue
@@ -823,6 +860,7 @@ def rule_T3c(facts, rows=None):
     for r in facts.wf:
         if rows and r not in rows:
             continue
+        summ = name_summaries(facts, r)
         for name, sm in sorted(summ.items()):
             if name not in accepted:
                 continue
@@ -851,6 +889,7 @@ def rule_T3h(facts, rows=("pausing", "canceling")):
     for r in rows:
         if r not in facts.wf:
             raise AnalysisError("workflow table has no row %s" % r)
+        summ = name_summaries(facts, r)
         for name in sorted(summ):
             if name not in accepted:
                 continue
@@ -872,6 +911,7 @@ def cmd_rows(facts):
     summ = name_summaries(facts)
     rows = set(WF_ACTIVE_ROWS)
     for r in WF_ACTIVE_ROWS:
+        summ = name_summaries(facts, r)
         for name, sm in summ.items():
             if name not in set(facts.TASK_EVENTS):
                 continue
@@ -894,6 +934,7 @@ def rule_T3d(facts, rows=None):
     for r in sorted(rcmd):
         if rows and r not in rows:
             continue
+        summ = name_summaries(facts, r)
         for name, sm in sorted(summ.items()):
             if name not in accepted or not sm["some_unhandled_failure"]:
                 continue
@@ -914,6 +955,7 @@ def rule_T3e(facts):
     summ = name_summaries(facts)
     reqm = wf_request_meaning(facts)
     for r, row in facts.wf.items():
+        summ = name_summaries(facts, r)
         for name, tgt in row.items():
             if tgt != "succeeded":
                 continue
